@@ -14,4 +14,4 @@ for path in sorted(glob.glob(os.path.join(HERE, "seeded", "*", "meta.json"))):
     first = "no"
     if "missed" in note:
         first = note
-    print(f"| `{m['id']}` | {m['breaks_property']} | {files} | {', '.join(m['caught_by']) or '**none**'} | {first} |")
+    print(f"| `{m['id']}` | {m['breaks_property']} | {files} | {(', '.join(m['caught_by']) or '**none**') + (' (until fix ' + m['superseded_by_fix'] + ')' if m.get('superseded_by_fix') else '')} | {first} |")
